@@ -190,14 +190,17 @@ namespace sim
 			return;
 		}
 
-		asio::async_read(m_client_connection, asio::buffer(&m_out_buffer[0], 10)
+		// the shortest request (a one character domain name) is 8 bytes long, so
+		// only read up to the first address byte (the length prefix of a domain
+		// name) here. The rest is read once the address type is known
+		asio::async_read(m_client_connection, asio::buffer(&m_out_buffer[0], 5)
 			, std::bind(&socks_connection::on_request1, shared_from_this()
 				, std::placeholders::_1, std::placeholders::_2));
 	}
 
 	void socks_connection::on_request1(error_code const& ec, size_t bytes_transferred)
 	{
-		size_t const expected = m_version == 4 ? 9 : 10;
+		size_t const expected = m_version == 4 ? 9 : 5;
 		if (ec || bytes_transferred != expected)
 		{
 			std::printf("socks_connection::on_request1: (%d) %s\n"
@@ -302,44 +305,10 @@ namespace sim
 
 		switch (atyp)
 		{
-			case 1: { // IPv4 address (we have the whole request already)
-
-// +----+-----+-------+------+----------+----------+
-// |VER | CMD |  RSV  | ATYP | BND.ADDR | BND.PORT |
-// +----+-----+-------+------+----------+----------+
-// | 1  |  1  | X'00' |  1   | 4        |    2     |
-// +----+-----+-------+------+----------+----------+
-
-				std::uint32_t addr = m_out_buffer[4] & 0xff;
-				addr <<= 8;
-				addr |= m_out_buffer[5] & 0xff;
-				addr <<= 8;
-				addr |= m_out_buffer[6] & 0xff;
-				addr <<= 8;
-				addr |= m_out_buffer[7] & 0xff;
-
-				std::uint16_t port = m_out_buffer[8] & 0xff;
-				port <<= 8;
-				port |= m_out_buffer[9] & 0xff;
-
-				asio::ip::tcp::endpoint target(asio::ip::address_v4(addr), port);
-				if (command == 1)
-				{
-					open_forward_connection(target);
-				}
-				else if (command == 2)
-				{
-					bind_connection(target);
-				}
-				else if (command == 3)
-				{
-					if (target.address() == address())
-					{
-						target.address(m_client_connection.remote_endpoint().address());
-					}
-					udp_associate(target);
-				}
-
+			case 1: { // IPv4 address, 3 more address bytes and the port follow
+				asio::async_read(m_client_connection, asio::buffer(&m_out_buffer[5], 5)
+					, std::bind(&socks_connection::on_request2
+						, shared_from_this(), std::placeholders::_1, std::placeholders::_2));
 				break;
 			}
 			case 3: { // domain name
@@ -358,11 +327,15 @@ namespace sim
 				}
 
 				const int len = std::uint8_t(m_out_buffer[4]);
-				// we already read an address of length 4, assuming it was an IPv4
-				// address. Now, with a domain name, one of those bytes was the
-				// length-prefix, but we still read 3 bytes already.
-				const int additional_bytes = len - 3;
-				asio::async_read(m_client_connection, asio::buffer(&m_out_buffer[10], additional_bytes)
+				if (len == 0)
+				{
+					std::printf("ERROR: empty domain name\n");
+					close_connection();
+					return;
+				}
+				// we have read the length prefix. The name and the port follow
+				const int additional_bytes = len + 2;
+				asio::async_read(m_client_connection, asio::buffer(&m_out_buffer[5], additional_bytes)
 					, std::bind(&socks_connection::on_request_domain_name
 						, shared_from_this(), std::placeholders::_1, std::placeholders::_2));
 				break;
@@ -380,6 +353,53 @@ namespace sim
 		}
 	}
 
+	void socks_connection::on_request2(error_code const& ec, size_t bytes_transferred)
+	{
+		if (ec || bytes_transferred != 5)
+		{
+			std::printf("socks_connection::on_request2: (%d) %s\n"
+				, ec.value(), ec.message().c_str());
+			close_connection();
+			return;
+		}
+
+// +----+-----+-------+------+----------+----------+
+// |VER | CMD |  RSV  | ATYP | BND.ADDR | BND.PORT |
+// +----+-----+-------+------+----------+----------+
+// | 1  |  1  | X'00' |  1   | 4        |    2     |
+// +----+-----+-------+------+----------+----------+
+
+		std::uint32_t addr = m_out_buffer[4] & 0xff;
+		addr <<= 8;
+		addr |= m_out_buffer[5] & 0xff;
+		addr <<= 8;
+		addr |= m_out_buffer[6] & 0xff;
+		addr <<= 8;
+		addr |= m_out_buffer[7] & 0xff;
+
+		std::uint16_t port = m_out_buffer[8] & 0xff;
+		port <<= 8;
+		port |= m_out_buffer[9] & 0xff;
+
+		asio::ip::tcp::endpoint target(asio::ip::address_v4(addr), port);
+		if (m_command == 1)
+		{
+			open_forward_connection(target);
+		}
+		else if (m_command == 2)
+		{
+			bind_connection(target);
+		}
+		else if (m_command == 3)
+		{
+			if (target.address() == address())
+			{
+				target.address(m_client_connection.remote_endpoint().address());
+			}
+			udp_associate(target);
+		}
+	}
+
 	void socks_connection::on_request_domain_name(error_code const& ec, size_t bytes_transferred)
 	{
 		if (ec)
@@ -390,7 +410,7 @@ namespace sim
 			return;
 		}
 
-		int const buffer_size = int(10 + bytes_transferred);
+		int const buffer_size = int(5 + bytes_transferred);
 
 		std::uint16_t port = m_out_buffer[buffer_size - 2] & 0xff;
 		port <<= 8;
